@@ -65,7 +65,7 @@ from vgi_rpc.rpc._types import (
     RpcMethodInfo,
     _unwrap_annotated,
 )
-from vgi_rpc.shm import ShmSegment, is_shm_pointer_batch, maybe_write_to_shm, resolve_shm_batch
+from vgi_rpc.shm import ShmPointerError, ShmSegment, is_shm_pointer_batch, maybe_write_to_shm, resolve_shm_batch
 from vgi_rpc.utils import (
     ArrowSerializableDataclass,
     IpcValidation,
@@ -489,7 +489,14 @@ def _read_request(
         request_shm = owned_shm = attach_shm(custom_metadata)
     try:
         if request_shm is not None:
-            batch, _, release_shm = resolve_shm_batch(batch, custom_metadata, request_shm)
+            try:
+                batch, _, release_shm = resolve_shm_batch(batch, custom_metadata, request_shm)
+            except ShmPointerError as exc:
+                raise RpcError(
+                    "ProtocolError",
+                    f"Malformed shared-memory pointer in request batch custom_metadata: {exc}",
+                    "",
+                ) from exc
         if len(batch.schema) > 0 and batch.num_rows != 1:
             raise RpcError(
                 "ProtocolError",
@@ -503,7 +510,11 @@ def _read_request(
         kwargs = {f.name: batch.column(i)[0].as_py() for i, f in enumerate(batch.schema)}
     finally:
         if release_shm is not None:
-            release_shm()
+            # The offset is client-supplied: a region the allocator does not
+            # know (already released, never allocated) is the client's
+            # bookkeeping error and must not replace the reply with a crash.
+            with contextlib.suppress(ValueError):
+                release_shm()
         if owned_shm is not None:
             with contextlib.suppress(BufferError):
                 owned_shm.close()
